@@ -513,6 +513,31 @@ macro_rules! trace_mod {
         NEXT_CLONE_TOK.with(|c| c.set(1_000_000_000 + t * 100_000));
         let mut rng = Rng::seeded(seed, t);
         let e0 = lru_mem::entry_size(&K::probe(0), &V::mk(0, 0, 0));
+        if profile == "owniter" {
+            // systematic sweep of the consuming iterators: a cache of n = 0..=4 entries; drain on the cache itself, or into_iter /
+            // into_keys / into_values on a clone of it; EVERY pattern of next / next_back of length 0..=5 (so every point of
+            // consumption from either end, partial, exact and past exhaustion); then dropped or forgotten.
+            // Index t enumerates (pattern, n, kind, fin): 63 * 5 * 4 * 2 = 2520 traces.
+            let pi = (t % 63) as usize; let n = ((t / 63) % 5) as usize; let kind = ((t / (63 * 5)) % 4) as u8; let forget = (t / (63 * 5 * 4)) % 2 == 1;
+            let mut len = 0usize; while (1usize << (len + 1)) - 1 <= pi { len += 1; }
+            let bits = pi - ((1usize << len) - 1);
+            let pat: String = (0..len).map(|i| if (bits >> i) & 1 == 1 { 'B' } else { 'F' }).collect();
+            let mut w = World { slots: vec![None, None, None], universe: 8, cfg: (usize::MAX, 4, 0), log: Vec::new() };
+            new_cache(&mut w, 0, usize::MAX, 4, 0, out);
+            let mut tok: u64 = t * 1_000_000;
+            let mut alive = true;
+            for i in 0..n { tok += 2; alive &= do_step(&mut w, 0, &Op::Insert(i as u32, tok - 1, 0, tok, tok, 0), out); if !alive { return (w, alive); } }
+            if kind == 3 {
+                alive &= do_step(&mut w, 0, &Op::Drain(pat, forget), out);
+                if alive { alive &= do_step(&mut w, 0, &Op::Len, out); }
+                if alive { tok += 2; alive &= do_step(&mut w, 0, &Op::Insert(7, tok - 1, 0, tok, tok, 0), out); }
+            } else {
+                alive &= do_step(&mut w, 0, &Op::Clone(1), out);
+                if alive { alive &= do_step(&mut w, 1, &Op::IntoIter(kind, pat, forget), out); }
+                if alive { alive &= do_step(&mut w, 0, &Op::Len, out); }
+            }
+            return (w, alive);
+        }
         if profile == "clog" {
             // systematic sweep of tombstone-clogged tables: a table of capacity c (every hashbrown capacity up to 112) is filled
             // exactly with consecutive keys (identity or multiplicative hasher: long occupied runs, so removals leave DELETED
